@@ -891,7 +891,33 @@ func (e *Exec) Observe(ix *index.Index, c *index.Corpus) string {
 			backs = append(backs, fmt.Sprintf("b%d:%s", id, strings.Join(cls, "+")))
 		}
 	}
-	return "M=" + joinOrDash(metas) + ";D=" + joinOrDash(dels) + ";P=" + joinOrDashSep(pns, "/") + ";L=" + joinOrDash(lm) + ";C=" + joinOrDash(cr) + ";B=" + joinOrDash(backs)
+	return "M=" + joinOrDash(metas) + ";D=" + joinOrDash(dels) + ";P=" + joinOrDashSep(pns, "/") + ";L=" + joinOrDash(lm) + ";C=" + joinOrDash(cr) + ";B=" + joinOrDash(backs) + ";K=" + joinOrDash(e.keyIDs(ix, c))
+}
+
+// keyIDs: Index.KeyId and Corpus.KeyId for every key blob of the world (`b1:K0`; `b1:K0/-` when the two differ)
+func (e *Exec) keyIDs(ix *index.Index, c *index.Corpus) []string {
+	var out []string
+	for _, id := range e.W.SortedIDs() {
+		if e.W.Specs[id].Kind != "key" {
+			continue
+		}
+		ref := e.W.Blob[id].BlobRef()
+		tok := func(s string, err error) string {
+			if err != nil {
+				return "-"
+			}
+			return e.keyIDTok(s)
+		}
+		a, b := tok(ix.KeyId(ctxbg, ref)), tok(c.KeyId(ctxbg, ref))
+		switch {
+		case a == "-" && b == "-":
+		case a == b:
+			out = append(out, fmt.Sprintf("b%d:%s", id, a))
+		default:
+			out = append(out, fmt.Sprintf("b%d:%s/%s", id, a, b))
+		}
+	}
+	return out
 }
 
 func joinOrDashSep(xs []string, sep string) string {
